@@ -31,12 +31,30 @@ def CounterAbove (reg : Reg W) (g : Genome W) : Prop :=
   (∀ x ∈ g.genes, x.inn ≤ reg.nextInn) ∧ (∀ n ∈ g.nodes, n.id ≤ reg.nextNode)
 instance (reg : Reg W) (g : Genome W) : Decidable (CounterAbove reg g) := by unfold CounterAbove; infer_instance
 
-/-- the registry's own invariant: recorded numbers were handed out by the counters, and the two numbers of a
-    new-node record differ -/
+/-- the registry's own invariant: recorded numbers were handed out by the counters (so numbers handed out later are
+    fresh), and the records do not contradict each other: a number recorded twice is recorded for the same thing,
+    link numbers and node-split numbers are disjoint, and the two numbers of a node-split record differ -/
+def RecBound (reg : Reg W) (i : Innov W) : Prop :=
+  (i.typ = 2 → i.inn ≤ reg.nextInn) ∧
+  (i.typ = 1 → i.inn ≤ reg.nextInn ∧ i.inn2 ≤ reg.nextInn ∧ i.newNode ≤ reg.nextNode)
+instance (reg : Reg W) (i : Innov W) : Decidable (RecBound reg i) := by unfold RecBound; infer_instance
+
+def RecPair22 (i j : Innov W) : Prop :=
+  i.typ = 2 → j.typ = 2 → i.inn = j.inn → i.inId = j.inId ∧ i.outId = j.outId ∧ i.recur = j.recur
+def RecPair21 (i j : Innov W) : Prop := i.typ = 2 → j.typ = 1 → i.inn ≠ j.inn ∧ i.inn ≠ j.inn2
+def RecPair11 (i j : Innov W) : Prop :=
+  i.typ = 1 → j.typ = 1 →
+    (i.inn = j.inn → i.inId = j.inId ∧ i.newNode = j.newNode) ∧
+    (i.inn2 = j.inn2 → i.newNode = j.newNode ∧ i.outId = j.outId) ∧ i.inn ≠ j.inn2
+instance (i j : Innov W) : Decidable (RecPair22 i j) := by unfold RecPair22; infer_instance
+instance (i j : Innov W) : Decidable (RecPair21 i j) := by unfold RecPair21; infer_instance
+instance (i j : Innov W) : Decidable (RecPair11 i j) := by unfold RecPair11; infer_instance
+
+def RecPairOk (i j : Innov W) : Prop := RecPair22 i j ∧ RecPair21 i j ∧ RecPair11 i j
+instance (i j : Innov W) : Decidable (RecPairOk i j) := by unfold RecPairOk; infer_instance
+
 def RegOk (reg : Reg W) : Prop :=
-  ∀ i ∈ reg.records,
-    (i.typ = 2 → i.inn ≤ reg.nextInn) ∧
-    (i.typ = 1 → i.inn ≤ reg.nextInn ∧ i.inn2 ≤ reg.nextInn ∧ i.inn ≠ i.inn2 ∧ i.newNode ≤ reg.nextNode)
+  (∀ i ∈ reg.records, RecBound reg i) ∧ (∀ i ∈ reg.records, ∀ j ∈ reg.records, RecPairOk i j)
 instance (reg : Reg W) : Decidable (RegOk reg) := by unfold RegOk; infer_instance
 
 /-- the first genes carry the same innovation number (holds in every population spawned from one genome) -/
